@@ -776,3 +776,44 @@ func init() {
 		return sc, defaultExplore(seed, 0, 0)
 	}})
 }
+
+func init() {
+	// C14 on the import path: a stream in which two transactions carry the same reference (an export whose second
+	// occurrence was rewritten, hashes recomputed). The import must stop at the second one, say why, and leave at
+	// most one transaction with that reference.
+	register(Profile{Property: "C14", Name: "import-repeated-reference", Gen: func(r *RNG, seed uint64, tier string) (*Scenario, *ExploreCfg) {
+		sc := &Scenario{Property: "C14", Profile: "import-repeated-reference", Knobs: randomKnobs(r), Checks: []string{"references", "import-reference"}, Params: map[string]string{}}
+		g := &gen{r: r, sc: sc}
+		feats := ledgerFeatures(sc.Knobs)
+		sc.Setup = []Op{{ID: g.id("s"), Kind: KCreateLedger, Ledger: "src", Feats: feats}}
+		n := 3 + r.Intn(3)
+		for i := 0; i < n; i++ {
+			sc.Setup = append(sc.Setup, Op{ID: g.id("h"), Kind: KPostings, Ledger: "src", Reference: fmt.Sprintf("ref-%d", i), Postings: []PostingSpec{{"world", fmt.Sprintf("g:%d", i), "10", "USD"}}})
+		}
+		sc.Setup = append(sc.Setup, Op{ID: g.id("s"), Kind: KExport, Ledger: "src"}, Op{ID: g.id("s"), Kind: KCreateLedger, Ledger: "dst", Feats: feats})
+		j := 1 + r.Intn(n-1)
+		i := r.Intn(j)
+		sc.Params["repeated"] = fmt.Sprintf("ref-%d", i)
+		sc.Clients = [][]Op{{{ID: "c0.0", Kind: KImport, Ledger: "dst", From: "src", Chunked: Pick(r, []int{64, 1 << 20}),
+			ImportSubst: [2]string{fmt.Sprintf(`"reference":"ref-%d"`, j), fmt.Sprintf(`"reference":"ref-%d"`, i)}}}}
+		return sc, defaultExplore(seed, 0, 0)
+	}})
+}
+
+// checkImportReference: the import of a stream that repeats a reference is refused as an import error that names
+// the reference conflict (not an internal error, not another diagnosis).
+func checkImportReference(r *runner) []Violation {
+	var vs []Violation
+	for _, or := range r.results {
+		if or.Op.Kind != KImport || or.Op.ImportSubst[0] == "" || len(or.Faults) > 0 {
+			continue
+		}
+		switch {
+		case or.Out.Class == "ok":
+			vs = append(vs, Violation{r.sc.Property, "an-import-repeating-a-reference-is-refused-for-it", fmt.Sprintf("%s: the stream carries reference %s twice and the import answered %d", or.Op.ID, r.sc.Params["repeated"], or.Out.Status)})
+		case or.Out.Class != "client_err" || !strings.Contains(strings.ToLower(or.Out.Msg), "reference"):
+			vs = append(vs, Violation{r.sc.Property, "an-import-repeating-a-reference-is-refused-for-it", fmt.Sprintf("%s: the stream carries reference %s twice; the import answered %d %s %q, which is not a reference-conflict refusal", or.Op.ID, r.sc.Params["repeated"], or.Out.Status, or.Out.Code, or.Out.Msg)})
+		}
+	}
+	return vs
+}
